@@ -148,7 +148,7 @@ fn project(reply: &Value, creqs: &[CReq]) -> Value {
     json!({"ev": "reply", "req": req, "cont": cont, "err": err, "arg": arg})
 }
 
-fn one_conn(addr: &str, log: &crate::svc::SharedLog, rng: &mut Rng, salt: &str, maxlen: usize) -> (Vec<Value>, usize) {
+fn one_conn(addr: &str, log: &crate::svc::SharedLog, rng: &mut Rng, salt: &str, maxlen: usize, sync: Option<&std::sync::Barrier>) -> (Vec<Value>, usize) {
     let n = 1 + rng.below(maxlen);
     let reqs: Vec<Value> = (0..n).map(|_| random_req(rng)).collect();
     let creqs: Vec<CReq> = reqs.iter().enumerate().map(|(i, r)| concretise(r, i + 1, salt, 0)).collect();
@@ -178,10 +178,10 @@ fn one_conn(addr: &str, log: &crate::svc::SharedLog, rng: &mut Rng, salt: &str, 
         b
     };
     let up_tok: Option<String> = reqs.iter().position(|r| r["k"] == "GenUp").map(|i| creqs[i].tok.clone());
-    if rng.chance(1, 4) {
+    if sync.is_none() && rng.chance(1, 4) {
         std::thread::sleep(Duration::from_micros(rng.below(800) as u64));
     }
-    let obs = run_socket(addr, log, &chunks, if ends_stream { None } else { Some(&sentinel_bytes) }, &stok, up_tok.as_deref());
+    let obs = crate::conn::run_socket_sync(addr, log, &chunks, if ends_stream { None } else { Some(&sentinel_bytes) }, &stok, up_tok.as_deref(), sync);
     let mut ev: Vec<Value> = Vec::new();
     ev.push(json!({"ev": "conn", "id": salt}));
     for r in &reqs {
@@ -235,6 +235,9 @@ pub fn run(args: &[String]) {
     let maxlen: usize = args.iter().find_map(|a| a.strip_prefix("--maxlen=").and_then(|s| s.parse().ok())).unwrap_or(16);
     let clients: usize = args.iter().find_map(|a| a.strip_prefix("--clients=").and_then(|s| s.parse().ok())).unwrap_or(1);
     let badpeers: usize = args.iter().find_map(|a| a.strip_prefix("--badpeers=").and_then(|s| s.parse().ok())).unwrap_or(0);
+    // --burst=R: the first R connections of every client are made in lock step: all clients connect at the same moment, nobody
+    // closes before everybody has waited for its replies (a connection served only once another one ends shows up as a hang)
+    let burst: usize = args.iter().find_map(|a| a.strip_prefix("--burst=").and_then(|s| s.parse().ok())).unwrap_or(0);
     let outp = args.iter().find_map(|a| a.strip_prefix("--out=")).unwrap_or("/dev/stdout").to_string();
     let transport = args.iter().find_map(|a| a.strip_prefix("--transport=")).unwrap_or("unix").to_string();
     let dir = tmpdir("conntrace");
@@ -244,7 +247,8 @@ pub fn run(args: &[String]) {
         format!("unix:{}/s", dir.display())
     };
     let nthreads = clients + badpeers;
-    let mut server = Server::start(&addr, 4, nthreads * 2 + 16);
+    let initial: usize = args.iter().find_map(|a| a.strip_prefix("--initial=").and_then(|s| s.parse().ok())).unwrap_or(4);
+    let mut server = Server::start(&addr, initial, nthreads * 2 + 16);
     let f = std::sync::Arc::new(std::sync::Mutex::new(std::io::BufWriter::new(std::fs::File::create(&outp).expect("trace file"))));
     let total_reqs = std::sync::Arc::new(std::sync::atomic::AtomicUsize::new(0));
     let done = std::sync::Arc::new(std::sync::atomic::AtomicBool::new(false));
@@ -285,8 +289,11 @@ pub fn run(args: &[String]) {
         }));
     }
     let per = (conns + clients - 1) / clients;
+    let burst = burst.min(per);
+    let barrier = std::sync::Arc::new(std::sync::Barrier::new(clients));
     let mut hs = Vec::new();
     for c in 0..clients {
+        let barrier = barrier.clone();
         let addr = addr.clone();
         let log = server.log.clone();
         let f = f.clone();
@@ -295,7 +302,7 @@ pub fn run(args: &[String]) {
             let mut rng = Rng::new(seed() * 7919 + 13 + c as u64 * 1_000_003);
             for k in 0..per {
                 let salt = format!("T{}q{}", c, k);
-                let (ev, n) = one_conn(&addr, &log, &mut rng, &salt, maxlen);
+                let (ev, n) = one_conn(&addr, &log, &mut rng, &salt, maxlen, if k < burst { Some(&*barrier) } else { None });
                 total_reqs.fetch_add(n, std::sync::atomic::Ordering::Relaxed);
                 let mut g = f.lock().unwrap();
                 for e in ev {
